@@ -1,11 +1,11 @@
 SPECIFICATION Spec
-CONSTANTS MaxLen = 3
-  Pool <- Pool3
-  Starts <- StartsB
+CONSTANTS MaxLen = 4
+  Pool <- PoolA
+  Starts <- StartsA
   Xs = {2}
-  Nested = TRUE
+  Nested = FALSE
   Ys <- NoData
-  Extra <- NoElems
+  Extra <- ExtraA
   Variant = "doc"
   CopyVarContext = TRUE
   ExtendByCompose = TRUE
